@@ -826,7 +826,10 @@ func (x *X) checkStream(st *bulkStream) {
 		}
 		got := normPayload(rq.Action, r.Payload, r.Error)
 		want, ok := st.expect[r.SeqID]
-		if !ok {
+		if !ok && st.cancelled && r.hasError() {
+			// refused without being run because the caller had gone: it was answered, once, with an error
+			x.Probe("request-refused-after-cancellation")
+		} else if !ok {
 			x.Violate("response-without-execution", "%s: response for seq_id %d although its worker was never started", where, r.SeqID)
 		} else if got != want && st.cancelled && r.hasError() {
 			x.Probe("request-failed-after-cancellation")
